@@ -3,7 +3,7 @@ package gensign
 //vsym:pkg github.com/theparanoids/ysshra/gensign
 //vsym:entry H04_run
 //vsym:replay same-harness
-//vsym:expect-cover C04.allauthfailed C04.generr C04.gen-empty C04.signerr C04.agenterr C04.panic C04.success
+//vsym:expect-cover C04.allauthfailed C04.generr C04.gen-empty C04.signerr C04.agenterr C04.panic C04.success C04.second-run
 //vsym:bound H04_run: 0..2 handlers, 0..2 agent keys per Generate, 0..2 CSRs per key, 0..2 certificates per CSR; every Authenticate / Generate / CSRs / Sign / AddCertsToAgent call returns ok, returns an error, or panics
 //vsym:assume the OpenTelemetry calls made from the recover closure are no-ops (go.opentelemetry.io is not interpreted)
 
@@ -51,8 +51,18 @@ func g04Outcome(what string) int {
 	return o
 }
 
+// g04Calm: an earlier, fault-free run of the same process is being executed
+// (every outcome is "ok", one key, one request, one certificate)
+var g04Calm bool
+
 // h04Sym: a fault / shape choice as a solver variable in [0,n)
 func h04Sym(n int, name string) int {
+	if g04Calm {
+		if name == "agent-keys" || name == "csrs-per-key" || name == "certs-per-csr" {
+			return 1
+		}
+		return o04OK
+	}
 	x := vNondetU8(name)
 	vAssume(int(x) < n)
 	return vPick(int(x), 0, n-1)
@@ -180,6 +190,17 @@ func H04_run() {
 	}
 	params := &csr.ReqParam{TransID: "t"}
 	var err error
+	// the process may have served a successful run before (nothing of it may
+	// carry over into this one)
+	if vChoose(2, "a-successful-run-came-first") == 1 {
+		g04Calm = true
+		e0 := Run(context.Background(), &csr.ReqParam{TransID: "t0"}, []Handler{&m04Handler{id: 0}}, m04Signer{})
+		g04Calm = false
+		vAssert(e0 == nil, "C04.no-fault-is-success")
+		g04Panicked, g04FirstFail, g04GenErr, g04AuthCalls, g04AuthOK = false, "", nil, nil, -1
+		g04GenCalls, g04SignCalls, g04Keys, g04AddCalls, g04AddOK, g04BadAdd, g04NextCSR = nil, nil, nil, nil, nil, false, 0
+		vReach("C04.second-run")
+	}
 	crashed := vCatch(func() { err = Run(context.Background(), params, hs, m04Signer{}) })
 	vAssert(!crashed, "C04.run-never-crashes")
 	if crashed {
